@@ -608,7 +608,9 @@ func F(m *traits.ElectricMode, t time.Time, assumeStart time.Time) (float32, boo
 func modes(s *hx.Seq) {
 	ls := lists(2)
 	// (the last one carries a fraction of a second: shifted by another fraction, the nanoseconds carry into the seconds)
-	starts := []*timestamppb.Timestamp{nil, timestamppb.New(t0), timestamppb.New(t0.Add(time.Second)), timestamppb.New(t0.Add(700 * time.Millisecond))}
+	starts := []*timestamppb.Timestamp{nil, timestamppb.New(t0), timestamppb.New(t0.Add(time.Second)), timestamppb.New(t0.Add(700 * time.Millisecond)),
+		// a start time not in normal form (the nanos hold a second and a half): the instant it names is t0+1.5s
+		{Seconds: t0.Unix(), Nanos: 1_500_000_000}}
 	for _, spec := range ls {
 		if !s.Own() {
 			continue
